@@ -132,7 +132,7 @@ func run(repo, dir string, seed uint64, tier string, nprog, nwild int, keep bool
 		p := idlgen.Generate(r, valueConfig(r, i))
 		p.Stats(out.Count)
 		if i%2 == 1 {
-			addClash(r, p, i, out.Count) // colliding field names and struct literals over them
+			addClash(r, p, i, i%4 == 3, out.Count) // colliding field names and struct literals over them
 		}
 		countProgramShapes(out, p)
 		if i%5 == 1 || i%5 == 3 {
@@ -457,13 +457,6 @@ func valueOps(r *vl.Rng, ud *unitData, out *vl.Out) []*opLine {
 	for sidx, st := range u.Schema.Structs {
 		key := fmt.Sprintf("%s:%d", u.Key, sidx)
 		init := st.Initial()
-		for _, f := range ud.prog.Files[st.File].Structs {
-			if f.Name == st.Name {
-				for _, fd := range f.Fields {
-					_ = fd
-				}
-			}
-		}
 		item := defText(ud.prog, st.File, "struct", st.Name)
 		ls = append(ls, &opLine{text: "N " + key, driver: true, ud: ud, what: "N", nontrivial: true, item: item, check: func(ans string) string { return sameValue(ans, init) }})
 		ls = append(ls, &opLine{text: "Z " + key, driver: true, ud: ud, what: "Z", nontrivial: true, item: item, check: func(ans string) string { return sameValue(ans, init) }})
